@@ -51,6 +51,19 @@ def Val.cmp (o : CmpOp) (a b : Val) : Option Bool :=
     | some (_, x), some (_, y) => some (cmpOrd o (compare x y))
     | _, _ => none
 
+/-! ### the order `sort_values` uses on cells -/
+
+def cellIsNull : Cell → Bool := Option.isNone
+
+/-- order on non-null values used by sort_values: NaN above every number -/
+def Val.lt (a b : Val) : Bool :=
+  match a, b with
+  | .nan, _ => false
+  | x, .nan => x != .nan
+  | a, b => (Val.cmp .lt a b).getD false
+
+def cellLt (a b : Cell) : Bool := match a, b with | some x, some y => Val.lt x y | _, _ => false
+
 def Val.arith (o : ArOp) (a b : Val) : Option Val :=
   match a, b with
   | .nan, x | x, .nan => if x.num?.isSome ∨ x == .nan then some .nan else none
